@@ -212,6 +212,10 @@ def sub_shorthand(ctx, shard, n):
                        len(names) * len(T.INTERVAL_SHORTHANDS) * 2)
     ctx.enumerate("shorthand", check_shorthand,
                   ([nm, sh, up] for nm in _shard(names, shard, n) for sh in T.INTERVAL_SHORTHANDS for up in (True, False)))
+    # the other shorthands of "up to two accidentals plus a degree": one sharp and one flat, in either order (size = major size)
+    mixed = [a + str(d) for d in range(1, 8) for a in ("#b", "b#")]
+    small = [nm for nm in names if len(nm) <= 3]
+    ctx.enumerate("shorthand", check_shorthand, ([nm, sh, up] for nm in _shard(small, shard, n) for sh in mixed for up in (True, False)))
 
 
 INVERT_FIXED = [[], ["C"], ["C", "E"], ["E", "C"], ["C", "E", "G"], ["C", "C"], ["C", "E", "C"], ["Bb", "D", "F", "Ab"],
